@@ -325,10 +325,12 @@ def r6(ctx, facts):
     b = facts.one(r"^%s::is_datacenter_failover_possible$" % DP)
     dj = dj_of(b, facts)
     df = df_of(b, facts)
-    dc = [c for c in b.calls_to("Option::<T>::is_some") if any((x.name or "").endswith("NodeLocationPreference::datacenter") for x in backward_slice(b, c.args[0])[1])]
-    if len(dc) != 1:
-        raise AnchorLost("is_datacenter_failover_possible: `preference.datacenter().is_some()` not found (%d)" % len(dc))
-    DC = ("call", dc[0].bb)
+    dcs = [c for bb, c in b.calls() if bb in b.live_blocks and (c.name or "").endswith("NodeLocationPreference::datacenter")]
+    if len(dcs) != 1:
+        raise AnchorLost("is_datacenter_failover_possible: `preference.datacenter()` not found (%d)" % len(dcs))
+    DROOT = ("disc", dj.disc_root(dj.canon.path(dcs[0].dest)))
+    # `x.is_some()` on that result (the dataflow already ties its outcome to the discriminant)
+    issome = {("call", c.bb) for c in b.calls_to("Option::<T>::is_some") if dj.disc_root(dj.canon.path(c.args[0][1])) == DROOT[1]}
 
     def permit(stt):
         for k, v in stt.items():
@@ -343,7 +345,7 @@ def r6(ctx, facts):
             n += 1
             e = dj.expr_of_rvalue(st[2])
             for stt in dj.states_before_stmt(bb, j):
-                d = 1 if in_set(stt.get(DC), {1}) else 0 if in_set(stt.get(DC), {0}) else None
+                d = 1 if in_set(stt.get(DROOT), {1}) else 0 if in_set(stt.get(DROOT), {0}) else None
                 p = permit(stt)
                 v = dj.eval_in(stt, e) if e is not None else None
                 if v == 0:
@@ -352,7 +354,7 @@ def r6(ctx, facts):
                     ok = d == 1 and p == 1
                 elif e is not None and e[0] == "val" and e[1][1][-1:] == ("permit_dc_failover",):
                     ok = d == 1
-                elif e == DC:
+                elif e in issome:
                     ok = p == 1
                 else:
                     ok = False
